@@ -193,9 +193,32 @@ def fbin(op, a, b):
     return mk(op, (a, b), "F")
 
 
+def _scaled(t):
+    """t == c * r for a concrete c and a symbolic r  ->  (c, r)"""
+    if is_t(t) and t.op == "fmul":
+        x, y = t.args
+        if is_conc(x) and is_t(y):
+            return float(x), y
+        if is_conc(y) and is_t(x):
+            return float(y), x
+    if is_t(t) and t.op == "fneg":
+        r = _scaled(t.args[0])
+        if r:
+            return -r[0], r[1]
+    return None
+
+
 def fun(op, a):
     if is_t(a) and a.op == "ite" and _has_nf_leaf(a):
         return _lift1(lambda x: fun(op, x), a)
+    if op == "fsqrt" and REAL_SIMPLIFY and is_t(a) and a.op == "fadd":
+        # sqrt((c1 r)^2 + (c2 r)^2) = |r| sqrt(c1^2 + c2^2)   (radial vertices; exact over the reals up
+        # to the rounding of the concrete constant)
+        p, q = a.args
+        if is_t(p) and is_t(q) and p.op == "fmul" and q.op == "fmul" and p.args[0] is p.args[1] and q.args[0] is q.args[1]:
+            sp, sq = _scaled(p.args[0]), _scaled(q.args[0])
+            if sp and sq and sp[1] is sq[1]:
+                return fbin("fmul", fun("fabs", sp[1]), math.sqrt(sp[0] * sp[0] + sq[0] * sq[0]))
     if is_conc(a):
         a = float(a)
         if op == "fneg":
@@ -553,6 +576,38 @@ class Render:
         if get:
             lines.append("(get-value (%s))" % " ".join(self.r(g) for g in get))
         return "\n".join(lines) + "\n"
+
+
+def bits_axioms(ts):
+    """instance axioms for the order-embedding abstraction of f64::to_bits"""
+    seen, apps, stack = set(), [], [t for t in ts if is_t(t)]
+    while stack:
+        t = stack.pop()
+        if t.id in seen:
+            continue
+        seen.add(t.id)
+        if t.op == "uf" and t.args[0] == "to_bits":
+            apps.append(t)
+        stack.extend(x for x in t.args if is_t(x))
+    ax = []
+    two63 = 2 ** 63
+    for a in apps:
+        x = a.args[1]
+        neg = fcmp("flt", x, 0.0)
+        ax += [bor(bnot(neg), icmp("ile", two63, a)), bor(neg, band(icmp("ile", 0, a), icmp("ilt", a, two63))), icmp("ilt", a, 2 ** 64)]
+    for i in range(len(apps)):
+        for j in range(len(apps)):
+            if i == j:
+                continue
+            a, b = apps[i], apps[j]
+            x, y = a.args[1], b.args[1]
+            both_pos = band(fcmp("fle", 0.0, x), fcmp("fle", 0.0, y))
+            both_neg = band(fcmp("flt", x, 0.0), fcmp("flt", y, 0.0))
+            ax.append(bor(bnot(both_pos), beq(fcmp("flt", x, y), icmp("ilt", a, b))))
+            ax.append(bor(bnot(both_neg), beq(fcmp("flt", x, y), icmp("ilt", b, a))))
+            if i < j:
+                ax.append(bor(bnot(fcmp("feq", x, y)), icmp("ieq", a, b)))
+    return ax
 
 
 def free_vars(ts):
